@@ -166,10 +166,11 @@ func (w *caseWriter) viaWorker(mode, hints string, data []byte) string {
 			w.judgeAlloc(mode, hints, data, alloc)
 		}
 		return out
-	case <-time.After(20 * time.Second):
+	case <-time.After(w.watchdog()):
 		wk.cmd.Process.Kill()
 		wk.cmd.Wait()
 		w.wk = nil
+		w.timeouts++
 		return "fatal:timeout"
 	}
 }
@@ -178,6 +179,15 @@ func (w *caseWriter) viaWorker(mode, hints string, data []byte) string {
 // (a 4-byte element becomes a 16-byte string header or a small struct) plus a constant for the decoder's own
 // buffers, never megabytes for a handful of bytes. gzip_packed is exempt ("apart from gzip expansion").
 const allocPerByte, allocSlack = 512, 1 << 20
+
+// watchdog: 20 s per decode; once eight decodes have hung the tree is known to be bad and the remaining
+// cases get 3 s each (an endless loop is still an endless loop), so that a run on such a tree ends in minutes
+func (w *caseWriter) watchdog() time.Duration {
+	if w.timeouts >= 8 {
+		return 3 * time.Second
+	}
+	return 20 * time.Second
+}
 
 func (w *caseWriter) judgeAlloc(mode, hints string, data []byte, alloc uint64) {
 	w.lastAlloc = alloc
@@ -252,6 +262,7 @@ type caseWriter struct {
 	kept      []keptResult
 	maxAlloc  uint64
 	lastAlloc uint64
+	timeouts  int
 }
 
 type keptResult struct {
